@@ -29,14 +29,32 @@ L = lambda v: [fs(x) for x in v]
 
 
 # ------------------------------------------------------------------ convex polynomial repair
-def convexify(cs, lo, hi):
-  """coefficients (highest degree first, degree <= 3) made convex on [lo, hi]: p'' = 6 c3 t + 2 c2 >= 0 at both ends."""
+def curvature_need(cs, lo, hi):
+  """the smallest t^2 coefficient c2 for which the polynomial (highest degree first; cs[-3] ignored) is convex on [lo, hi].
+  Exact up to degree 4 (p'' - 2 c2 is at most a quadratic: its minimum over the interval is at an end or at the vertex);
+  degree >= 5: the sufficient bound sum_{k>=3} k(k-1)|c_k| R^(k-2) / 2, R = max(|lo|, |hi|)."""
+  cs = [F(c) for c in cs]; lo, hi = F(lo), F(hi)
+  deg = len(cs) - 1
+  if deg <= 2:
+    return None
+  c3 = cs[-4]; c4 = cs[-5] if deg >= 4 else F(0)
+  if deg <= 4:
+    r = lambda t: 12*c4*t*t + 6*c3*t
+    pts = [lo, hi]
+    if c4 > 0 and lo < -c3/(4*c4) < hi:
+      pts.append(-c3/(4*c4))
+    return -min(r(t) for t in pts)/2
+  R = max(abs(lo), abs(hi))
+  return sum((k*(k - 1)*abs(cs[deg - k])*R**(k - 2) for k in range(3, deg + 1)), F(0))/2
+
+
+def convexify(cs, lo, hi, tight=False):
+  """coefficients (highest degree first) made convex on [lo, hi] by raising the t^2 coefficient (`tight`: set to the smallest convex value)."""
   cs = [F(c) for c in cs]
-  if len(cs) < 3:
+  need = curvature_need(cs, lo, hi)
+  if need is None:
     return cs
-  c3 = cs[-4] if len(cs) >= 4 else F(0)
-  need = max(-3*c3*lo, -3*c3*hi, F(0)) if len(cs) >= 4 else F(0)
-  if cs[-3] < need:
+  if cs[-3] < need or tight:
     cs[-3] = need
   return cs
 
@@ -56,7 +74,7 @@ def convex_fn(f, lb, hb):
     f['cs'] = [L(convexify(row, lb[i] + F(off[i]), hb[i] + F(off[i]))) for i, row in enumerate(f['cs'])]
   elif k == 'demand':
     # f(max x) is convex when f is convex and non-decreasing on [max lb, max hb]
-    cs = [F(c) for c in f['cs']]
+    cs = [F(c) for c in f['cs']][-3:]      # the convex family keeps the quadratic part of a higher-degree inner curve
     lo = max(lb)
     if len(cs) == 3:
       if cs[1] < -2*cs[0]*lo:
@@ -184,6 +202,9 @@ def gen_dev(rng, tier, cls, corner=False):
       d['lb'], d['hb'] = L(lb), L(hb); d['_py']['bform'] = 'table'
     d['prm'], bnd = prm_tdevice(rng, n)
   elif cls == 'GDevice':
+    if rng.random() < 0.4:      # degree 4-5, signed lower-order coefficients, repaired to be convex on the generated range
+      from .. import gen_fnx
+      d['prm']['cost_coeffs'] = gen_fnx.rich_coeffs(rng, n, lb, hb, convex=True); bnd.append('degree>=4')
     cc = d['prm']['cost_coeffs']
     if isinstance(cc[0], list):
       d['prm']['cost_coeffs'] = [L(convexify(row, -hb[i], -lb[i])) for i, row in enumerate(cc)]
@@ -195,7 +216,40 @@ def gen_dev(rng, tier, cls, corner=False):
   return d, bnd
 
 
-PROBES = ['IDevice2.p_l>p_h', 'IDevice2.p_l>p_h', 'CDevice2.p_l>p_h', 'SDevice.eff>1', 'SDevice.eff>1', 'SDevice.c2>c1', 'TDevice.c<0', 'IDevice.c<0', 'IDevice.b<=0']
+PROBES = ['IDevice2.p_l>p_h', 'IDevice2.p_l>p_h', 'CDevice2.p_l>p_h', 'CDevice2.p_l>p_h', 'SDevice.eff>1', 'SDevice.eff>1', 'SDevice.c2>c1', 'SDevice.c2>c1',
+          'TDevice.c<0', 'IDevice.c<0', 'IDevice.b<=0', 'SDevice.c3<0', 'SDevice.c2<0', 'SDevice.c1<0', 'IDevice.c[k]<0', 'IDevice.a[k]<0', 'TDevice.c[k]<0']
+# the parameters whose validators compare them with EACH OTHER: the check may live in either setter, so the probes (and the valid cases)
+# are built with both keyword orders and, for the probes, also by assignment through the setters in both orders
+ROUTED = {'IDevice2': ['p_l', 'p_h'], 'CDevice2': ['p_l', 'p_h'], 'SDevice': ['c1', 'c2']}
+
+
+def gen_route(rng, cls, probe):
+  order = list(ROUTED[cls]); rng.shuffle(order)
+  if probe and rng.random() < 0.4:
+    base = {'p_l': '-4', 'p_h': '0'} if cls != 'SDevice' else {'c1': '4', 'c2': '0'}
+    return {'via': 'setters', 'order': order, 'base': base}
+  return {'via': 'kwargs', 'order': order}
+
+
+def build_routed(d, route):
+  """the device of `d` with the mutually constrained parameters handed over in the keyword order `route['order']`, or
+  (via 'setters') constructed with the harmless `base` values and then assigned through the public setters in that order."""
+  dk = C.repo(); cls = d['cls']; n = d['n']; p = d['prm']
+  b, cb = build.py_bounds(d), build.py_cbounds(d)
+  val = lambda k, src: build.fv(src[k]) if cls == 'IDevice2' else C.pf(src[k])
+  first = route['base'] if route['via'] == 'setters' else p
+  kw = {k: val(k, first) for k in route['order']}
+  if cls == 'SDevice':
+    kw.update({k: C.pf(v) for k, v in p.items() if k not in kw and k != 'rate_clip'})
+    dev = dk.SDevice('sdevice', n, b, cb, **kw)
+  elif cls == 'IDevice2':
+    dev = dk.IDevice2('idevice2', n, b, cb, **kw)
+  else:
+    dev = dk.CDevice2('cdevice2', n, b, cb, **kw)
+  if route['via'] == 'setters':
+    for k in route['order']:
+      setattr(dev, k, val(k, p))
+  return dev
 
 
 def gen_probe(rng, tier, name):
@@ -213,13 +267,32 @@ def gen_probe(rng, tier, name):
       pls = [dy(rng, -3, Fraction(-1, 4)) for _ in range(n)]; phs = [dy(rng, x, 0) for x in pls]
       k = rng.choice(live); phs[k] = pls[k] - rng.choice([Fraction(1, 64), F(1), F(2)])
       p['p_l'], p['p_h'] = L(pls), L(phs)
-    else:
+    elif rng.random() < 0.5:
       pl = dy(rng, -2, Fraction(-1, 4)); p['p_l'] = fs(pl); p['p_h'] = fs(pl - rng.choice([Fraction(1, 64), F(1), F(2)]))
+    else:            # each value is acceptable next to the class DEFAULT of the other one (p_l = -1, p_h = 0)
+      ph = dy(rng, -1, Fraction(-1, 8), 3); p['p_h'] = fs(ph); p['p_l'] = fs(ph + rng.choice([Fraction(1, 64), -ph/2, -ph]))
+  elif name in ('SDevice.c3<0', 'SDevice.c2<0', 'SDevice.c1<0'):
+    k = name[8:10]
+    p.update({'c1': rng.choice(['1/64', '1/4', '1']), 'c2': '0', 'c3': rng.choice(['1', '2']), 'damage_depth': '1', 'start': '0', 'efficiency': rng.choice(['1', '3/4'])})
+    p[k] = fs(-rng.choice([Fraction(1, 64), Fraction(1, 2), F(1), F(4)]))
+  elif name in ('IDevice.c[k]<0', 'IDevice.a[k]<0', 'TDevice.c[k]<0'):      # a vector with ONE bad entry
+    k = name.split('.')[1][0]; j = rng.choice(live)
+    v = [F(x) for x in (p[k] if isinstance(p[k], list) else [p[k]]*n)]
+    v = [x if x > 0 else Fraction(1, 2) for x in v]
+    v[j] = -rng.choice([Fraction(1, 64), Fraction(1, 2), F(1), F(2)])
+    p[k] = L(v)
+    if cls == 'TDevice':
+      p['t_range'] = fs(dy(rng, 1, 6))
+    elif not b_is_int(d):
+      p['b'] = rng.choice(['2', '3'])
   elif name == 'SDevice.eff>1':
     p.update({'efficiency': rng.choice(['65/64', '5/4', '3/2', '2', '2']), 'c1': rng.choice(['1/64', '1/4', '1']), 'c2': '0',
               'c3': rng.choice(['1', '2', '4']), 'damage_depth': '1', 'start': rng.choice(['0', '1/4']), 'capacity': fs(dy(rng, 6, 12))})
   elif name == 'SDevice.c2>c1':
-    c1 = dy(rng, Fraction(1, 4), 2); p['c1'] = fs(c1); p['c2'] = fs(c1 + rng.choice([Fraction(1, 64), F(1), c1]))
+    if rng.random() < 0.5:
+      c1 = dy(rng, Fraction(1, 4), 2); p['c1'] = fs(c1); p['c2'] = fs(c1 + rng.choice([Fraction(1, 64), F(1), c1]))
+    else:            # c2 is acceptable next to the class default c1 = 1
+      c1 = rng.choice([Fraction(1, 8), Fraction(1, 4), Fraction(1, 2)]); p['c1'] = fs(c1); p['c2'] = fs(rng.choice([c1 + Fraction(1, 64), Fraction(3, 4), F(1)]))
   elif name == 'TDevice.c<0':
     p['c'] = fs(-dy(rng, Fraction(1, 4), 3)); p['t_range'] = fs(dy(rng, 1, 6))
   elif name == 'IDevice.c<0':
@@ -389,6 +462,9 @@ class C07(Prop):
       elif q < P_CORNER_IDEV + P_CORNER_SDEV + P_PROBE:
         name = rng.choice(PROBES)
         d, bnd = gen_probe(rng, tier, name); branch = 'probe:' + name
+        if name in ('IDevice2.p_l>p_h', 'CDevice2.p_l>p_h', 'SDevice.c2>c1'):
+          extra['route'] = gen_route(rng, d['cls'], True)
+        extra['more'] = [list(gen_pair(rng, d)[:2]) for _ in range(5)]      # an accepted probe is judged on more pairs
       elif q < P_CORNER_IDEV + P_CORNER_SDEV + P_PROBE + P_SET0:
         d, bnd, set0 = gen_set0(rng, tier); branch = 'std'
         if set0: extra['set0'] = set0
@@ -397,6 +473,8 @@ class C07(Prop):
         extra['alias'] = al
       else:
         d, bnd = gen_dev(rng, tier, rng.choice(CLASSES)); branch = 'std'
+        if d['cls'] in ROUTED and rng.random() < 0.5:
+          extra['route'] = gen_route(rng, d['cls'], False)
       x, y, th = gen_pair(rng, d)
       out.append(dict({'dev': d, 'x': x, 'y': y, 'p': gen.gen_price(rng, d['n']), 'thetas': th, 'branch': branch, 'bnd': bnd}, **extra))
     return out
@@ -449,6 +527,8 @@ class C07(Prop):
           return dev
         except ValueError:
           pass        # the other value is not accepted together with the rest: plain construction
+      if case.get('route'):
+        return build_routed(case['dev'], case['route'])
       return build.build_leaf(case['dev'])
     except ValueError:
       return None
@@ -478,15 +558,41 @@ class C07(Prop):
 
   # ---------------------------------------------------------------- oracle
   def oracle(self, case):
-    n_ = np()
     d = case['dev']; branch = case.get('branch', 'std')
     self.bump('branch ' + branch)
     dev = self.build(case)
+    route = case.get('route')
+    rt = (' [%s in the order %s]' % ('keyword arguments' if route['via'] == 'kwargs' else 'built with %s, then assigned through the setters' % route['base'], route['order'])) if route else ''
     if dev is None:
       self.bump('rejected_by_validator ' + branch)
+      if route and not branch.startswith('probe:'):
+        try:
+          build.build_leaf(d)
+          self.bump('VALID configuration rejected in keyword order %s but accepted in the other order (%s; vacuous for C07, C11 business)' % (route['order'], d['cls']))
+        except ValueError:
+          pass
       return []
-    if branch.startswith('probe:'):
-      self.bump('ACCEPTED outside-validator parameters ' + branch)
+    if not branch.startswith('probe:'):
+      return self._oracle(case, dev)
+    # ---- parameters OUTSIDE the documented-convex region were accepted: search for the chord / monotonicity violation on the case's
+    # pair and on five more; found or not, the acceptance itself is reported (the validators are what keeps the models convex)
+    self.bump('ACCEPTED outside-validator parameters ' + branch)
+    for sub in [case] + [dict(case, x=m[0], y=m[1]) for m in case.get('more', [])]:
+      try:
+        fs_ = self._oracle(sub, dev)
+      except ArithmeticError:
+        fs_ = []
+      if fs_:
+        fs_[0]['detail'] += rt
+        return fs_
+    return [{'key': {'cls': d['cls'], 'kind': 'accepted-outside-validator', 'probe': branch[6:]},
+             'detail': '%s accepts parameters outside the documented-convex region (%s: the validators are what keeps the model convex; the convexity theorems need exactly '
+                       'these hypotheses)%s; prm=%s bounds=%s/%s.  No chord violation on the 6 probed pairs (the non-convexity may be small), the acceptance itself is the finding.' % (
+                         d['cls'], branch[6:], rt, json.dumps(strip_private(d['prm']))[:300], d['lb'], d['hb'])}]
+
+  def _oracle(self, case, dev):
+    n_ = np()
+    d = case['dev']; branch = case.get('branch', 'std')
     if d['cls'] == 'SDevice' and branch in ('std', 'feasible-set'):
       fs = self.feasible_set_oracle(case, dev)
       if fs:
